@@ -2,6 +2,7 @@
 import random
 
 from ..harness import Scenario, gen_cfg
+from ..riverlike import RealScenario, gen_real_cfg
 from ..probes import InjectedFault
 from ..core import jsonable
 
@@ -21,7 +22,7 @@ def check_identity(run, sc, where, replay):
     else:
         scale = max(1.0, sc.loss.max_abs)
         good = abs(float(tot) - float(exp)) <= 1e-9 * (sc.cfg["d"] + 2) * scale
-    run.ok(kind="exact" if sc.cfg["exact"] else "float")
+    run.ok(kind="real-model" if sc.cfg.get("real") else "exact" if sc.cfg["exact"] else "float")
     if not good:
         run.violation("efficiency-identity", f"{where}: sum(importance)={tot!r} explained_loss={exp!r}", replay)
     return good, tot, exp
@@ -88,12 +89,17 @@ def main(run):
                 "ixai/utils/tracker/multi_value.py:MultiValueTracker.update")
     rnd = random.Random(run.shard_seed)
     tree_configs(run, random.Random(run.shard_seed + 17), 16 if run.tier == "quick" else 40)
+    run.require_count("real-model-configs")
     for i in range(N_CFG[run.tier]):
         exact = (i % 3 != 2)
-        cfg = gen_cfg(rnd, "sage", exact, allow_discontinuous=True)
+        if i % 15 == 14:     # a real river model that keeps learning, river streams and metrics, the library's own wrappers
+            cfg = gen_real_cfg(rnd, "sage")
+            run.count("real-model-configs")
+        else:
+            cfg = gen_cfg(rnd, "sage", exact, allow_discontinuous=True)
         seed = rnd.randrange(2 ** 31)
         try:
-            sc = Scenario(cfg, seed)
+            sc = (RealScenario if cfg.get("real") else Scenario)(cfg, seed)
         except Exception as ex:  # construction problems belong to C15
             run.other_error(f"C15:construct:{type(ex).__name__}")
             continue
